@@ -94,6 +94,9 @@ fn check<T: Scalar>(spec: &Spec, alpha: &[f64], depth: usize, st: &mut Stats, si
 /// as `check`, but the TREE grows from the state a base history leaves behind (larger windows)
 fn check_from<T: Scalar>(spec: &Spec, base: &[f64], alpha: &[f64], depth: usize, st: &mut Stats, sink: &Sink) {
     let trs = transforms(spec.kind, T::EXACT);
+    if build_or_report::<T>("C12", spec, sink).is_none() {
+        return;
+    }
     let c0 = T::inexact();
     let img: Vec<Dyn<T>> = trs
         .iter()
